@@ -36,7 +36,7 @@ def run(tier, replay=None):
             ck.violation(d, case)
         ck.cov["evaluations"] = 1
         return ck.finish()
-    n = 4 if tier == "quick" else 6
+    n = 4 if tier == "quick" else 5
     r, rl, obs = frontlib.lexer_model(n)
     ck.add_tlc(r, "Lexer.tla invariants, strings <= %d" % n)
     ck.add_tlc(rl, "Lexer.tla liveness (termination), strings <= 3")
